@@ -208,7 +208,8 @@ def build_harness(rundir, race=False, tags=()):
 # (directory under go/, generated file, "stdout" = prints the file | "file" = takes the output path as 2nd argument)
 CORE_GENERATED = ["Consts.lean", "Opts.lean", "Bounds.lean", "Layout.lean"]
 LAST_FACTX_FAILED = set()   # generated files whose extraction failed in the last run_factx of this process
-EXTRA_EXTRACTORS = [("factx_frames", "Frames.lean", "stdout"), ("factx_access", "Access.lean", "file"), ("factx_x86", "X86.lean", "stdout")]
+EXTRA_EXTRACTORS = [("factx_frames", "Frames.lean", "stdout"), ("factx_access", "Access.lean", "file"), ("factx_x86", "X86.lean", "stdout"),
+                    ("factx_dispatch", "Dispatch.lean", "stdout")]
 
 
 def build_factx(rundir):
